@@ -1,0 +1,59 @@
+//go:build verif
+
+package openapi3
+
+// C19: the reason text of a schema error never contains the rejected value. Label obligations
+// (data flow on the SSA of each function): nothing derived from the `secret` parameter reaches a
+// store into SchemaError.Reason; the built-in format validators return errors that do not depend
+// on the value; user-registered validators are assumed to do the same (A3). Object keys and
+// lengths are not secret (the statement is about string values).
+
+//@ extend func (*Schema).visitJSON
+//@   secret value
+//@   tag C19
+//@ extend func (*Schema).visitNotOperation
+//@   secret value
+//@   tag C19
+//@ extend func (*Schema).visitXOFOperations
+//@   secret value
+//@   tag C19
+//@ extend func (*Schema).visitEnumOperation
+//@   secret value
+//@   tag C19
+//@ extend func (*Schema).visitJSONNull
+//@   secret value
+//@   tag C19
+//@ extend func (*Schema).visitJSONBoolean
+//@   secret value
+//@   tag C19
+//@ extend func (*Schema).visitJSONNumber
+//@   secret value
+//@   tag C19
+//@ extend func (*Schema).visitJSONString
+//@   secret value
+//@   tag C19
+//@ extend func (*Schema).visitJSONArray
+//@   secret value
+//@   tag C19
+//@ extend func (*Schema).visitJSONObject
+//@   secret value
+//@   tag C19
+//@ extend func (*Schema).expectedType
+//@   secret value
+//@   tag C19
+
+// reasons set outside the visitors: none of these functions receives the validated value
+//@ extend func (*Schema).compilePattern
+//@   secret _none
+//@   tag C19
+
+// format validators: their error must not depend on the value
+//@ extend iface (FormatValidator).Validate
+//@   untainted
+//@ func (stringRegexpFormatValidator).Validate
+//@   secret value
+//@   returns-untainted
+//@   tag C19
+//@ func NewIPValidator$1
+//@   secret ip
+//@   tag C19
